@@ -413,4 +413,4 @@ func writeEvidence(vdir, prop, tier string, seed int, spec CheckSpec, results []
 	os.WriteFile(filepath.Join(vdir, "evidence", prop+".json"), data, 0644)
 }
 
-func cmdSelftest(args []string) int { return 2 }
+
